@@ -567,3 +567,77 @@ Proof.
   { intros H. inversion H; subst. cbn in *. lra. }
   unfold offered, Rmax. destruct (Rle_dec 10 0); lra.
 Qed.
+
+(* ------------------------------------------------------------------ the hypotheses are satisfiable *)
+(* a bunded field, 5 mm ponded behind 100 mm bunds, clay loam (2 x 0.1 m) over sandy loam (0.2 m) whose field capacity is
+   raised by a water table; 30 mm of rain and 20 mm of irrigation at 75 % efficiency; outflows left by drainage *)
+Definition ex_p : list (Comp R) :=
+  [mk_comp (1/10) (115/1000) (23/100) (39/100) (50/100) 125 (47/100);
+   mk_comp (1/10) (115/1000) (23/100) (39/100) (50/100) 125 (47/100);
+   mk_comp (2/10) (5/100) (10/100) (22/100) (41/100) 1200 1].
+Definition ex_th : list R := [45/100; 30/100; 15/100].
+Definition ex_fc : list R := [39/100; 39/100; 30/100].
+Definition ex_fl : list R := [3; 0; 10].
+Definition ex_run := infiltration ex_p 5 ex_fc ex_th 30 20 75 true 100 ex_fl 10 4 true.
+
+Example ex_wf : wf_prof ex_p.
+Proof. repeat constructor; cbn; lra. Qed.
+Example ex_in_bounds : in_bounds ex_p ex_th.
+Proof. repeat constructor; cbn; lra. Qed.
+Example ex_fcadj : fcadj_ok ex_p ex_fc.
+Proof. repeat constructor; cbn; lra. Qed.
+Example ex_flux : flux_ok ex_p ex_fl.
+Proof. repeat constructor; cbn; lra. Qed.
+
+Example infiltration_defined_ex : exists r, ex_run = Some r.
+Proof.
+  apply infiltration_defined; [discriminate | exact ex_in_bounds | exact ex_fcadj | reflexivity | lra | lra].
+Qed.
+
+Example infiltration_balance_ex : exists th' surf' dp' ro' infl_rep fl',
+  ex_run = Some (th', surf', dp', ro', infl_rep, fl')
+  /\ storage ex_p th' + surf' + dp' + ro' = storage ex_p ex_th + 5 + offered 30 20 75 true + 10 + 4.
+Proof.
+  destruct infiltration_defined_ex as [[[[[[th' surf'] dp'] ro'] ir] fl'] E]. exists th', surf', dp', ro', ir, fl'.
+  split; [exact E|]. apply (infiltration_balance _ _ _ _ _ _ _ _ _ _ _ _ _ _ _ _ _ _ _ ex_wf ex_in_bounds ex_fcadj ltac:(lra) E).
+Qed.
+
+Example surface_identity_ex : exists th' surf' dp' ro' infl_rep fl',
+  ex_run = Some (th', surf', dp', ro', infl_rep, fl') /\ infl_rep + (ro' - 4) = offered 30 20 75 true.
+Proof.
+  destruct infiltration_defined_ex as [[[[[[th' surf'] dp'] ro'] ir] fl'] E]. exists th', surf', dp', ro', ir, fl'.
+  split; [exact E|]. apply (surface_identity _ _ _ _ _ _ _ _ _ _ _ _ _ _ _ _ _ _ _ E).
+Qed.
+
+Example runoff_bounds_ex : exists th' surf' dp' ro' infl_rep fl',
+  ex_run = Some (th', surf', dp', ro', infl_rep, fl')
+  /\ 0 <= ro' - 4 <= offered 30 20 75 true + 5 /\ - 5 <= infl_rep <= offered 30 20 75 true /\ ~ infl_rep < 0.
+Proof.
+  destruct infiltration_defined_ex as [[[[[[th' surf'] dp'] ro'] ir] fl'] E]. exists th', surf', dp', ro', ir, fl'.
+  split; [exact E|]. split; [|split].
+  - apply (runoff_bounds _ _ _ _ _ _ _ _ _ _ _ _ _ _ _ _ _ _ _ ex_wf ex_in_bounds ex_fcadj ex_flux ltac:(lra) E).
+  - apply (infl_lower _ _ _ _ _ _ _ _ _ _ _ _ _ _ _ _ _ _ _ ex_wf ex_in_bounds ex_fcadj ex_flux ltac:(lra) E).
+  - intros Hneg.
+    destruct (infl_negative_only_without_bunds _ _ _ _ _ _ _ _ _ _ _ _ _ _ _ _ _ _ _ ex_wf ex_in_bounds ex_fcadj ex_flux ltac:(lra) E Hneg)
+      as [[H|[H|H]] _]; [discriminate | lra | lra].
+Qed.
+
+Example dry_day_ex : forall th' surf' dp' ro' infl_rep fl',
+  infiltration ex_p 0 ex_fc ex_th 0 20 75 true 100 ex_fl 10 4 false = Some (th', surf', dp', ro', infl_rep, fl') ->
+  infl_rep = 0 /\ ro' - 4 = 0 /\ th' = ex_th /\ surf' = 0 /\ dp' = 10.
+Proof.
+  intros th' surf' dp' ro' ir fl' E.
+  apply (dry_day _ _ _ _ _ _ _ _ _ _ _ _ _ _ _ _ _ _ _ ex_wf ex_in_bounds ex_fcadj) in E; [exact E | | reflexivity].
+  unfold offered, Rmax. destruct (Rle_dec 0 0); lra.
+Qed.
+
+Example infiltration_bounds_ex : exists th' surf' dp' ro' infl_rep fl',
+  ex_run = Some (th', surf', dp', ro', infl_rep, fl')
+  /\ in_bounds ex_p th' /\ 0 <= surf' <= 100 /\ 10 <= dp'.
+Proof.
+  destruct infiltration_defined_ex as [[[[[[th' surf'] dp'] ro'] ir] fl'] E]. exists th', surf', dp', ro', ir, fl'.
+  split; [exact E|].
+  destruct (infiltration_bounds _ _ _ _ _ _ _ _ _ _ _ _ _ _ _ _ _ _ _ ex_wf ex_in_bounds ex_fcadj ltac:(lra) E) as (B1 & B2 & B3 & B4 & B5).
+  pose proof (deep_perc_nonneg _ _ _ _ _ _ _ _ _ _ _ _ _ _ _ _ _ _ _ ex_wf ex_in_bounds ex_fcadj ex_flux ltac:(lra) E) as D.
+  specialize (B3 eq_refl ltac:(lra)). repeat split; try assumption; lra.
+Qed.
